@@ -2475,6 +2475,23 @@ func firstCharClass(v ssa.Value, depth int) string {
 		if callee != nil && (callee.String() == "encoding/hex.EncodeToString") {
 			return "hex"
 		}
+		// a helper of the product: what it returns
+		if callee != nil && callee.Blocks != nil && callee.Pkg == x.Parent().Pkg {
+			cls := ""
+			for _, b := range callee.Blocks {
+				if ret, ok := b.Instrs[len(b.Instrs)-1].(*ssa.Return); ok && len(ret.Results) >= 1 {
+					c := firstCharClass(ret.Results[0], depth+1)
+					if cls == "" {
+						cls = c
+					} else if cls != c {
+						return "?"
+					}
+				}
+			}
+			if cls != "" {
+				return cls
+			}
+		}
 	case *ssa.Phi:
 		cls := ""
 		for _, e := range x.Edges {
